@@ -649,8 +649,30 @@ func c16Run(t *testing.T, p *world.PKI, v checks.Variant, clientSide bool, pos i
 
 		case actCtx:
 			if xs.Established {
-				o.Skip = true
-				pr.CloseAll()
+				// The handshake context is released after success (its deadline passes, or the caller cancels
+				// it as callers do with defer cancel()): the established connection must not notice.
+				if !ys.Established {
+					o.Skip = true
+					pr.CloseAll()
+					return
+				}
+				how := "deadline-passed"
+				if pos%2 == 1 && ctxCancel != nil {
+					how = "cancelled"
+					ctxCancel()
+					w.Settle()
+				} else {
+					w.Sleep(ctxBudget + time.Millisecond)
+				}
+				for _, dir := range [][2]*world.Endpoint{{x, y}, {y, x}} {
+					got, rerr, werr := pr.Transfer(n, dir[0], dir[1], []byte("after-ctx-release"), 3*time.Second)
+					if rerr != nil || werr != nil || string(got) != "after-ctx-release" {
+						bad("after the context given to HandshakeContext was released (%s) following a successful handshake, data %s -> %s fails: read=%v write=%v", how, dir[0].Name, dir[1].Name, rerr, werr)
+					}
+				}
+				finish(w, pr, n, x, y, bad)
+				o.NonTrivial = true
+				o.Class = "ctxrelease/" + how
 				return
 			}
 			// expire the context now: fake time jumps past the context deadline
